@@ -3,6 +3,7 @@ package nodelite
 import (
 	"bytes"
 	"context"
+	"errors"
 	"fmt"
 	"os"
 	"sort"
@@ -141,7 +142,7 @@ type Snap struct {
 // ---- events / oracles ---------------------------------------------------------------------------
 
 type Event struct {
-	Kind    string // up upenc pup pyr fetch ask pin unpin haspin pins del gc gcr read get serve reinit download
+	Kind    string // up upenc pup pyr fetch ask pin unpin haspin pins del gc gcr read get getfault serve reinit download
 	File    *File
 	Arg     []string
 	Code    int    // HTTP status (0 if none)
@@ -1307,6 +1308,43 @@ func (rn *Runner) exec(ctx *core.Ctx, ev *Event, op []string) string {
 			return "err"
 		}
 		return "ok"
+
+	case "getfault":
+		// getfault <spec> h<i>|d<i> : netstore.Get of one chunk under the file's context while the local read of
+		// exactly that chunk fails with an error that is not storage.ErrNotFound (the storer netstore reads through
+		// answers it; localstore is not reached).  The chunk need not be stored: a failing read does not go to the
+		// network.  Guards as for `get` except `absent`.
+		if len(op) != 3 || f.Enc || len(op[2]) < 2 {
+			return skip(ev, "bad-op")
+		}
+		i, err := strconv.Atoi(op[2][1:])
+		if err != nil || i < 0 {
+			return skip(ev, "bad-op")
+		}
+		var a boson.Address
+		switch {
+		case op[2][0] == 'h' && i < len(f.Hash):
+			a = f.Hash[i]
+		case op[2][0] == 'd' && i < len(f.Data):
+			a = f.Data[i]
+		default:
+			return skip(ev, "bad-op")
+		}
+		if !rn.known(f, ev.Before) || !rn.Complete(f, ev.Before) {
+			return skip(ev, "unstable")
+		}
+		gerr, hits := n.GetFaultUnderRoot(f.Root, a, storage.ModeGetRequest)
+		if hits == 0 {
+			ctx.Fail("harness-getfault", "netstore.Get of %s did not make the armed local read", short(a))
+		}
+		if gerr == nil {
+			return "ok" // the failed read was answered with a chunk: disagrees with the model's `err`
+		}
+		if !errors.Is(gerr, errInjectedRead) {
+			// e.g. netstore.ErrRecoveryAttempt: the failing read was taken to the network
+			ctx.Fail("harness-getfault", "read of %s with a failing local read answered %v, not the read error", short(a), gerr)
+		}
+		return "err"
 
 	}
 	return skip(ev, "bad-op")
